@@ -347,6 +347,7 @@ func (g *genCtx) applyScripts(p *PlanSpec) {
 			g.failAtRun(Pick(r, conts).a, 2+r.Intn(6))
 		}
 	}
+	defer clampLatencies(p)
 	if g.consts {
 		// constant scripts: drop everything that depends on the invocation number
 		for _, c := range append(seqActs, checkActs...) {
@@ -360,6 +361,31 @@ func (g *genCtx) applyScripts(p *PlanSpec) {
 				}
 			}
 		}
+	}
+}
+
+// clampLatencies makes sure that every scripted outcome other than an overrun
+// returns before the action's timeout, so that the outcome the script names is
+// the outcome the engine sees.
+func clampLatencies(p *PlanSpec) {
+	seqActs, checkActs := collectActions(p)
+	for _, c := range append(seqActs, checkActs...) {
+		to := int64(c.a.EffTimeout() / 1e6)
+		fix := func(o *Outcome) {
+			if o.Kind == Overrun || o.Kind == OverrunIg {
+				return
+			}
+			if o.LatMs >= to-1000 {
+				o.LatMs = 3137
+				if to <= 5000 {
+					o.LatMs = 2137
+				}
+			}
+		}
+		for i := range c.a.Script {
+			fix(&c.a.Script[i])
+		}
+		fix(&c.a.Default)
 	}
 }
 
